@@ -156,6 +156,7 @@ type Op struct {
 	Q      string   `json:"q,omitempty"`
 	Data   string   `json:"data,omitempty"`
 	Chunks []string `json:"chunks,omitempty"`
+	Via    string   `json:"via,omitempty"` // Writer: "" = Write per chunk, "copy" = io.Copy from a reader (ReaderFrom path), "string" = io.WriteString
 	Buf    int      `json:"buf,omitempty"`
 	View   []string `json:"view,omitempty"` // chain of Filespace(sub) calls the op is issued through
 }
